@@ -586,7 +586,32 @@ pub fn gen_query(rng: &mut StdRng, depth: u32, o: &GenOpts) -> Value {
     if depth == 0 || rng.random_range(0..10) < 4 {
         return gen_leaf(rng, o);
     }
-    match rng.random_range(0..12) {
+    match rng.random_range(0..14) {
+        12 | 13 => {
+            // minimum_number_should_match below the number of Should clauses (the Disjunction scorer), next to Must / MustNot
+            // clauses at the same level or nested as a Must / MustNot operand; cheap and expensive conjuncts mixed
+            let ns = rng.random_range(3..6usize);
+            let msm = rng.random_range(2..ns);
+            let mut cl: Vec<Value> = (0..ns).map(|_| json!({"o":"should","q":gen_query(rng, depth - 1, o)})).collect();
+            let same_level = rng.random_bool(0.6);
+            if same_level {
+                for _ in 0..rng.random_range(1..3) {
+                    let oc = if rng.random_bool(0.75) { "must" } else { "mustnot" };
+                    cl.push(json!({"o":oc,"q":gen_leaf(rng, o)}));
+                }
+                cl.shuffle(rng);
+                bool_json(cl, Some(msm))
+            } else {
+                let d = bool_json(cl, Some(msm));
+                let oc = if rng.random_bool(0.7) { "must" } else { "mustnot" };
+                let mut outer = vec![json!({"o":oc,"q":d}), json!({"o":"must","q":gen_leaf(rng, o)})];
+                if rng.random_bool(0.4) {
+                    outer.push(json!({"o":"should","q":gen_leaf(rng, o)}));
+                }
+                outer.shuffle(rng);
+                bool_json(outer, None)
+            }
+        }
         0 => json!({"k":"boost","q":gen_query(rng, depth - 1, o),"b":*[0.5, 2.0, 3.0].choose(rng).unwrap()}),
         1 => json!({"k":"const","q":gen_query(rng, depth - 1, o),"s":*[0.5, 1.5].choose(rng).unwrap()}),
         2 => {
